@@ -427,6 +427,60 @@ def sample_case(rng):
   return term, dict(kind="sample:" + orc["kind"], dom=dom, n=n, out=out)
 
 
+def sample_call_case(rng):
+  """The constrained branches of one_hot_domain.generate_quasi_random_points_in_domain at the call into aux/samplers.py: what is handed to the
+  sampler (half-space rows, start point, box), what comes back and what the entry point makes of it (NumPy's own generator, seeded)."""
+  L = _lib()
+  dom = gen_dom(rng, True, kinds=("double", "int"), need=("double", "double"))
+  if not dom["cons"]:
+    return None
+  D = N.make_domain(dom)
+  oh = D.one_hot_domain
+  forced = rng.random() < 0.5
+  oh.force_hitandrun_sampling = forced
+  n = rng.choice([1, 2, 3, 5])
+  rec = {}
+  real = (L.D.generate_hitandrun_random_points, L.D.generate_uniform_random_points_rejection_sampling_with_hitandrun_padding, L.D.generate_uniform_random_points)
+
+  def lst(a):
+    return numpy.array(a, dtype=float).tolist()
+
+  def spy_hit(num, x0, A, b):
+    out = real[0](num, x0, A, b)
+    rec.update(kind="hit", A=lst(A), b=lst(b), x0=lst(x0), raw=lst(out))
+    return out
+
+  def spy_pad(num, bounds, A, b, x0=None):
+    out, ok = real[1](num, bounds, A, b, x0)
+    rec.update(kind="pad", A=lst(A), b=lst(b), x0=[] if x0 is None else lst(x0), box=lst(bounds), raw=lst(out))
+    return out, ok
+
+  def spy_unif(num, bounds, *a, **k):
+    out = real[2](num, bounds, *a, **k)
+    rec.update(vals=numpy.array(out, dtype=float).reshape(num, -1).tolist(), box=numpy.array(bounds, dtype=float).reshape(-1, 2).tolist())
+    return out
+  state = numpy.random.get_state()
+  numpy.random.seed(rng.randrange(2 ** 31))
+  L.D.generate_hitandrun_random_points, L.D.generate_uniform_random_points_rejection_sampling_with_hitandrun_padding, L.D.generate_uniform_random_points = spy_hit, spy_pad, spy_unif
+  try:
+    out = oh.generate_quasi_random_points_in_domain(n)
+  finally:
+    L.D.generate_hitandrun_random_points, L.D.generate_uniform_random_points_rejection_sampling_with_hitandrun_padding, L.D.generate_uniform_random_points = real
+    numpy.random.set_state(state)
+  if "kind" not in rec:
+    raise C.TieBroken("the constrained branch of generate_quasi_random_points_in_domain called neither hit-and-run nor rejection sampling with padding")
+  if (rec["kind"] == "hit") != forced:
+    raise C.TieBroken("generate_quasi_random_points_in_domain took the other constrained branch than force_hitandrun_sampling says")
+  out = numpy.asarray(out, dtype=float).reshape(-1, oh.dim).tolist()
+  hs = C.listlit([f"({row_lit(a)}, {q(b)})" for a, b in zip(rec["A"], rec["b"])])
+  box = C.listlit([f"({q(a)}, {q(b)})" for a, b in rec.get("box", [])])
+  vals = rec.get("vals", [[] for _ in rec["raw"]])
+  c = [float(v) for v in oh._cheby_center]
+  term = (f"KSampleCall {N.dom_lit(dom)} {row_lit(c)} {C.blit(rec['kind'] == 'hit')} {hs} {row_lit(rec['x0'])} {box} {rows_lit(rec['raw'])} "
+          f"{rows_lit(vals)} {rows_lit(out)}")
+  return term, dict(kind="sample-call:" + rec["kind"], dom=dom, n=n, forced=forced, out=out)
+
+
 def gen_vpar(rng, dim):
   n_es = rng.randint(2, 5)
   nrs = rng.randint(1, n_es)
@@ -668,7 +722,7 @@ def compose_cases(ctx):
   """(terms, metas) of the glue correspondence; ctx.rng is the only randomness source."""
   rng = ctx.rng
   terms, metas = [], []
-  plan = ([("dom", dom_case)] * ctx.n(40, 400) + [("sample", sample_case)] * ctx.n(60, 600) +
+  plan = ([("dom", dom_case)] * ctx.n(40, 400) + [("sample", sample_case)] * ctx.n(60, 600) + [("sample-call", sample_call_case)] * ctx.n(40, 400) +
           [("vec", lambda r: vec_case(r, False))] * ctx.n(60, 800) + [("cl", lambda r: vec_case(r, True))] * ctx.n(50, 800) +
           [("quasi", quasi_case)] * ctx.n(30, 300) + [("qei", qei_case)] * ctx.n(25, 300) +
           [("spe", spe_case)] * ctx.n(40, 400))
